@@ -49,7 +49,12 @@ impl Verifying for RecVerifier {
         if answer {
             Ok(())
         } else {
-            Err(rpm::Error::KeyNotFoundError { key_ref: "scripted rejection".into() })
+            // the kind of the rejection varies from call to call: no kind of rejection may be skipped
+            match (calls.len() + len) % 4 {
+                0 | 1 => Err(rpm::Error::KeyNotFoundError { key_ref: "scripted rejection".into() }),
+                2 => Err(rpm::Error::NoSignatureFound),
+                _ => Err(rpm::Error::from(std::io::Error::other("scripted rejection"))),
+            }
         }
     }
     fn algorithm(&self) -> AlgorithmType {
